@@ -6,6 +6,11 @@ from pathlib import Path
 ROOT = Path(__file__).resolve().parent.parent
 
 CHECKS = {
+    "C07": dict(
+        text="Proof (Lean 4 kernel): (1) op_sem_eq_spec - each of the 34 scalar opcode bodies, REGENERATED from opcodes.h by a C++-subset translator and wired as opcode_table.h wires them, simulates the step of the opcode specification (written from doc/OpCodes.adoc: 32-bit two's complement, signed comparisons, logical 0/1, truncating division failing on 0 and INT_MIN/-1, zero-extending truncation, operand sign/zero extension) on every int32 stack and all operand bytes; (2) run_eq_spec - for every program over these opcodes on which the specification is defined, Machine::run returns the specification's value and status (stack array with guard cells, ENDOP continuation test with the extracted unsigned division, epilogue and check_final_stack as extracted); (3) drivers_agree - the direct-threaded and call-threaded run loops are the same function because both ENDOP/EXIT/epilogue texts extract to the same definitions. Loader model (scalar subset) and the whole chain are tied to the code by running ~70k programs (full boundary operand grids, random depth-aware programs, stack-limit and malformed programs) through both interpreter builds, as action and constraint code, under ASan/UBSan, against the model and against an independent Python evaluator.",
+        note="Trusted: Lean kernel + [propext, Classical.choice, Quot.sound]; tools/vmtrans.py (translator) and the macro-text pins; Model/VmPrelude.lean; hand-written loader model tied by correspondence; not yet proved: that every loader-accepted byte string satisfies run_eq_spec's 'specification defined' premise (load_defined) - decided by correspondence; whole-library equality of the two builds on shaping is covered by the dump checks, not here.",
+        technique="Lean 4 simulation proof over opcode bodies regenerated from the C++ source + differential execution on both interpreter builds",
+        ref="§6 C07"),
     "C11": dict(
         text="Proof (Lean 4 kernel), for all code-unit strings in all three encodings: gr_count_unicode_characters' model never faults on [begin,end) and equals the Unicode specification's scan (Table 3-7/D91/D90) - exact count without error on well-formed text, error reported on ill-formed text, error pointer inside the buffer, count <= well-formed characters before the first ill-formed sequence; NUL-terminated branch never reads past a NUL; get/put inverse on all scalar values; ill-formed sequences swallow only trailing units (resync); the three encodings of a scalar list read back as the same scalars. Decoder tables, limits and toolong thresholds are REGENERATED from UtfCodec.h/.cpp. Model tied to the code by differential execution under ASan: every UTF-8 string of <=3 bytes (exhaustive, 16.8M), boundary-structured longer strings, UTF-16/32 boundary products, gr_make_seg char-infos.",
         note="Trusted: Lean kernel + [propext, Classical.choice, Quot.sound]; extractor for Gen.Utf; hand-written Model/Utf.lean tied by finite differential runs; Spec/Utf.lean validated against Python's strict codecs through the predicate on implementation outputs. Whole-segment equality across encodings is reduced to equality of the decoded scalar list.",
